@@ -73,8 +73,10 @@ where
 
         let elements_left = self.original_len - self.end;
         let replace_len = self.replace_with.len();
-        let replace_end = self.start + replace_len;
-        let new_len = replace_end + elements_left;
+        let replace_end = self.start.checked_add(replace_len)
+            .expect("capacity overflow");
+        let new_len = replace_end.checked_add(elements_left)
+            .expect("capacity overflow");
 
         // 0. capacity. `reserve` takes the number of additional elements,
         // and `len` is `start` now.
